@@ -280,7 +280,7 @@ impl InterfaceInner {
                 }
 
                 // Discard packets with non-unicast source addresses.
-                if !source_protocol_addr.x_is_unicast() || !source_hardware_addr.is_unicast() {
+                if !self.is_unicast_v4(source_protocol_addr) || !source_hardware_addr.is_unicast() {
                     net_debug!("arp: non-unicast source address");
                     return None;
                 }
